@@ -22,9 +22,11 @@ pub fn validate(server_name: &str) -> Result<(), Error> {
         #[allow(clippy::unnecessary_lazy_evaluations)]
         let end_of_host = server_name.find(':').unwrap_or_else(|| server_name.len());
 
-        if server_name[..end_of_host]
-            .bytes()
-            .any(|byte| !(byte.is_ascii_alphanumeric() || byte == b'-' || byte == b'.'))
+        // The hostname must not be empty, `:8448` is not a server name.
+        if end_of_host == 0
+            || server_name[..end_of_host]
+                .bytes()
+                .any(|byte| !(byte.is_ascii_alphanumeric() || byte == b'-' || byte == b'.'))
         {
             return Err(Error::InvalidServerName);
         }
